@@ -109,6 +109,10 @@ fn check_aln(c: &AlnCase) -> Verdict {
             *r.quality_scores_mut() = vec![10u8].into();
         }
         let keys: Vec<_> = r.data().iter().map(|(t, _)| t).collect();
+        // CG is reserved for BAM's real-CIGAR convention (the BAM encoder drops a user-supplied one)
+        if let Some(cg) = keys.iter().find(|k| k.as_ref() == b"CG") {
+            r.data_mut().remove(cg);
+        }
         for k in keys {
             match r.data_mut().get_mut(&k) {
                 Some(Value::Float(f)) if !f.is_finite() => *f = 0.5,
